@@ -4,14 +4,14 @@
 From Coq Require Import NArith ZArith Bool.
 Local Open Scope Z_scope.
 
-Inductive ity := TInt | TUInt | TLong | TULong.
+Inductive lit_ty := TInt | TUInt | TLong | TULong.
 
 Definition sval (v : N) : Z :=                      (* int64_t val = strtoul(...) *)
   let z := Z.of_N v in if z <? 9223372036854775808 then z else z - 18446744073709551616.
 
 Definition nz (z : Z) : bool := negb (z =? 0).      (* C truth value *)
 
-Definition lit_type (decimal l u : bool) (v : N) : ity :=
+Definition lit_type (decimal l u : bool) (v : N) : lit_ty :=
   let val := sval v in
   if decimal then
     if l && u then TULong
